@@ -15,6 +15,13 @@ C13 — line-protocol driver of the drop model (core only).
   tagvals <mst> <pred>                         → tv k=v+v;k=v
   card <mst> <pred|*>                          → n <k>     (`*` = no condition)
   cat <dbcreate|dbmark|dbdrop|rpcreate|rpmark|rpdrop|mcreate n|mmark n|mdrop p|resolve n> → ok | name p | err e
+  purge                                        → ok | err parts-in-merge
+  imerge | mbegin <entry,entry…>               → ok <n>    (the parts that hold these series entries are merged / taken by a merger; n = parts taken)
+  mend                                         → ok
+  regroup <part>|<part>…                       → ok | err regroup   (the new process's mergers regrouped the index parts)
+  parts                                        → parts <part>|<part>…   (index parts: entries ascending, parts by first entry; ~ being merged, * purge mark)
+  ddisk                                        → ddisk <entry,entry…>   (tsids in the parts of the deleted-tsid table)
+entry: <kid>.<n> = the n-th tsid ever issued for series key kid; part: entry,entry….
 pred: RPN over `;` — `-` (none), eq:k:v, neq:k:v, re:k:a+b, nre:k:a+b, and, or.
 -/
 import OG.C13.Model
@@ -103,6 +110,57 @@ def showLayout (l : List (String × Bool × Bool)) : String :=
   String.join (l.filterMap fun (m, o, u) =>
     if o || u then some (" " ++ m ++ "=" ++ (if o then "o" else "") ++ (if u then "u" else "")) else none)
 
+/-! ### index parts on the line protocol: a tsid is named `kid.n` -/
+
+/-- (kid, n) of a tsid: its series key and how many smaller tsids that key had been issued before. -/
+def entryOf (born : List (Nat × Nat)) (id : Nat) : Option (Nat × Nat) :=
+  match born.lookup id with
+  | some kid => some (kid, (born.filter fun x => x.2 == kid && decide (x.1 < id)).length)
+  | none => none
+
+def idOf (born : List (Nat × Nat)) (kid n : Nat) : Option Nat :=
+  (born.find? fun x => x.2 == kid && entryOf born x.1 == some (kid, n)).map (·.1)
+
+def pairLe (a b : Nat × Nat) : Bool := a.1 < b.1 || (a.1 == b.1 && a.2 ≤ b.2)
+
+def insertPair (x : Nat × Nat) : List (Nat × Nat) → List (Nat × Nat)
+  | [] => [x]
+  | y :: ys => if pairLe x y then x :: y :: ys else y :: insertPair x ys
+
+def sortPairs (xs : List (Nat × Nat)) : List (Nat × Nat) := xs.foldr insertPair []
+
+def insertPart (x : List (Nat × Nat) × String) : List (List (Nat × Nat) × String) → List (List (Nat × Nat) × String)
+  | [] => [x]
+  | y :: ys =>
+    if pairLe (x.1.headD (0, 0)) (y.1.headD (0, 0)) then x :: y :: ys else y :: insertPart x ys
+
+def showEntries (es : List (Nat × Nat)) : String :=
+  String.intercalate "," (es.map fun e => toString e.1 ++ "." ++ toString e.2)
+
+def showParts (born : List (Nat × Nat)) (parts : List Part) : String :=
+  let rows := parts.map fun p =>
+    (sortPairs (p.ids.map fun i => (entryOf born i).getD (999999, i)),
+     (if p.inMerge then "~" else "") ++ (if p.mark then "*" else ""))
+  "parts " ++ String.intercalate "|" ((rows.foldr insertPart []).map fun r => showEntries r.1 ++ r.2)
+
+def parseEntry (s : String) : Option (Nat × Nat) :=
+  match s.splitOn "." with
+  | [a, b] => do
+    let k ← a.toNat?
+    let n ← b.toNat?
+    some (k, n)
+  | _ => none
+
+def parseEntries (born : List (Nat × Nat)) (s : String) : Option (List Nat) :=
+  if s == "-" then some [] else
+  (s.splitOn ",").mapM fun t => do
+    let (k, n) ← parseEntry t
+    idOf born k n
+
+/-- positions of the parts that hold the given tsids. -/
+def positionsOf (parts : List Part) (ids : List Nat) : List Nat :=
+  ((List.range parts.length).zip parts).filterMap fun (i, p) => if ids.any p.ids.contains then some i else none
+
 def catStep (c : Cat) : List String → Cat × String
   | ["dbcreate"] => match c.dbCreate with | .ok c' => (c', "ok") | .error e => (c, "err " ++ e.text)
   | ["dbmark"] => match c.dbMark with | .ok c' => (c', "ok") | .error e => (c, "err " ++ e.text)
@@ -115,6 +173,16 @@ def catStep (c : Cat) : List String → Cat × String
   | ["mdrop", p] => match c.mDrop p with | .ok c' => (c', "ok") | .error e => (c, "err " ++ e.text)
   | ["resolve", n] => match c.resolve n with | .ok p => (c, "name " ++ p) | .error e => (c, "err " ++ e.text)
   | _ => (c, "bad-op")
+
+def mergeStep (d : DSt) (whole : Bool) (es : String) : DSt × String :=
+  let st := d.st
+  if st.idx.parts.any (·.inMerge) then (d, "bad-op") else
+  match parseEntries st.idx.born es with
+  | some ids =>
+    let sel := positionsOf st.idx.parts ids
+    let n := (((List.range st.idx.parts.length).zip st.idx.parts).filter fun (i, p) => sel.contains i && p.mergeable).length
+    ({ d with st := if whole then st.imerge sel else st.mbegin sel }, "ok " ++ toString n)
+  | none => (d, "bad-op")
 
 def step (d : DSt) (line : String) : DSt × String :=
   let U := d.univ
@@ -140,7 +208,20 @@ def step (d : DSt) (line : String) : DSt × String :=
   | ["fullcompact"] => ({ d with st := st.compact }, "ok")
   | ["merge"] => ({ d with st := st.mergeOOO }, "ok")
   | ["tick"] => ({ d with st := st.tick }, "ok")
-  | ["purge"] => ({ d with st := st.purge }, "ok")
+  | ["purge"] => ({ d with st := st.purge }, if st.purgeErr then "err parts-in-merge" else "ok")
+  | ["imerge", es] => mergeStep d true es
+  | ["mbegin", es] => mergeStep d false es
+  | ["regroup", es] =>
+    match (es.splitOn "|").mapM (parseEntries st.idx.born) with
+    | some gs =>
+      let st' := st.regroup gs
+      if st'.idx.parts == (gs.filter (!·.isEmpty)).map (fun g => (⟨g, false, false⟩ : Part)) then ({ d with st := st' }, "ok")
+      else (d, "err regroup")
+    | none => (d, "err regroup")
+  | ["mend"] => ({ d with st := st.mend }, "ok")
+  | ["parts"] => (d, showParts st.idx.born st.idx.parts)
+  | ["ddisk"] =>
+    (d, "ddisk " ++ showEntries (sortPairs ((st.idx.delDisk.eraseDups).map fun i => (entryOf st.idx.born i).getD (999999, i))))
   | ["reopen"] => ({ d with st := st.reopen }, "ok")
   | ["crash"] => ({ d with st := st.crash }, "ok")
   | ["dropseries", m, p] =>
